@@ -236,6 +236,35 @@ def string_variants(M, maxrun, limit):
 def run_op4_case(case, tier, res):
     kind = case[0]
     msgs_all = []
+    if kind == "rows65536":
+        # matrices with 65535 / 65536 / 65537 rows in the sparse layouts: up to 65535 rows the row count is positive and the
+        # strings are in the short form; from 65536 rows on the strings are BIGMAT strings whether the row count is written
+        # negative or positive
+        _, L = case
+        nrow = L + 2
+        A = np.zeros((nrow, 2))
+        A[3:40, 0] = np.arange(1, 38) * 0.5
+        A[nrow - 5 : nrow, 0] = [1.5, -2.0, 3.0, -4.5, 6.0]
+        A[0, 1] = -3.0
+        A[nrow - 1, 1] = 7.25
+        mats = [dict(name="BIG", A=A, form=2, mtype=2), dict(name="SMALL", A=A[:5].copy(), form=2, mtype=2)]
+        exp = [A, A[:5].copy()]
+        variants = [("dense", False)] + ([("nonbigmat", False)] if nrow <= 65535 else []) + [("bigmat", False)] + ([("bigmat", True)] if nrow >= 65536 else [])
+        for (layout, pos), endian in itertools.product(variants, ("<", ">")):
+            data, truth = op4_enc.encode_binary(mats, endian=endian, layout=[layout, "dense"], big_positive=pos)
+            tag = "op4 binary %s %d rows %s%s" % (endian, nrow, layout, " (positive row count)" if pos else "")
+            msgs = check_op4_file(data, truth, exp, res, tag, True)
+            res.ev("op4rows/%d/bin/%s/%s" % (nrow, layout, "pos" if pos else "neg"))
+            res.traces += 1
+            msgs_all += [(dict(fmt="bin", endian=endian, layout=layout, big_positive=pos, rows=nrow), m) for m in msgs]
+        for layout, pos in variants:
+            txt, truth, expd = op4_enc.encode_ascii([dict(m) for m in mats], 23, 16, 3, "E", [layout, "dense"], big_positive=pos)
+            tag = "op4 ascii %d rows %s%s" % (nrow, layout, " (positive row count)" if pos else "")
+            msgs = check_op4_file(txt, truth, expd, res, tag, False)
+            res.ev("op4rows/%d/asc/%s/%s" % (nrow, layout, "pos" if pos else "neg"))
+            res.traces += 1
+            msgs_all += [(dict(fmt="asc", layout=layout, big_positive=pos, rows=nrow), m) for m in msgs]
+        return msgs_all
     if kind == "pat":
         _, r, c, p = case
         builds = [(mt, mat_from_pattern(r, c, p, mt in (3, 4), mt in (1, 3))) for mt in (1, 2, 3, 4)]
@@ -559,6 +588,21 @@ def run_op2(tier, res, part):
                 res.ev("op2names/%s/%d" % (endian, 64 if bit64 else 32))
                 res.traces += 1
                 msgs_all += [(dict(part=part, endian=endian, bit64=bit64, names=[b["name"] for b in blocks]), m) for m in msgs]
+        # a table and matrices sharing ONE name: matrix reads by name / occurrence must count matrices only
+        for endian, bit64 in itertools.product(("<", ">"), (False, True)):
+            it = endian + ("i8" if bit64 else "i4")
+            tabK = op2_enc.table_block("KAA", [[np.arange(1, 6).astype(it).tobytes()], [np.arange(50, 53).astype(it).tobytes()]], trailer=(104, 5, 3, 0, 0, 0, 0))
+            mA = op2_enc.matrix_block("KAA", M1, 2)
+            mB = op2_enc.matrix_block("KAA", M2, 2, tid=103)
+            other = op2_enc.matrix_block("MAA", M1 * 3, 2, tid=105)
+            for order in itertools.permutations((tabK, mA, mB, other)):
+                blocks = list(order)
+                data, truth = op2_enc.encode(blocks, endian, bit64)
+                tag = "op2 %s %dbit table+matrices named KAA order=%s" % (endian, 64 if bit64 else 32, [b["name"] + ":" + b["kind"][0] for b in blocks])
+                msgs = check_op2_file(data, truth, blocks, res, tag)
+                res.ev("op2shared/%s/%d" % (endian, 64 if bit64 else 32))
+                res.traces += 1
+                msgs_all += [(dict(part=part, endian=endian, bit64=bit64, shared=[b["name"] + b["kind"][0] for b in blocks]), m) for m in msgs]
     return msgs_all
 
 
@@ -648,6 +692,7 @@ def shards(tier, seed):
     ncol = 6 if tier == "quick" else 8
     cases += [("col", ncol, p) for p in range(1, 2 ** ncol)]
     cases += [("cut", L) for L in (2999, 3000, 3001)]
+    cases += [("rows65536", L) for L in (65533, 65534, 65535)]  # 65535 / 65536 / 65537 rows: where 65536 or more rows imply BIGMAT strings
     n = 48 if tier == "quick" else 128
     out = [dict(part="op4", cases=cases[i::n], tier=tier) for i in range(n)]
     out.append(dict(part="op2", which="matrix-strings", tier=tier))
